@@ -228,6 +228,8 @@ type Violation struct {
 	Labels  []string
 	Case    any
 	Count   int64
+	// Concurrent is set by the driver when the failure only occurs while several executions run at once.
+	Concurrent int
 }
 
 // Result of an exploration.
@@ -241,8 +243,8 @@ type Result struct {
 	DistinctOutcomes int
 	OutcomeSet       []uint64 `json:",omitempty"` // sharded exploration: the outcome hashes, for merging
 	NontrivSet       []uint64 `json:",omitempty"`
-	Nontrivial       int64 // executions flagged non-trivial
-	DistinctNontriv  int   // distinct outcomes among non-trivial executions
+	Nontrivial       int64    // executions flagged non-trivial
+	DistinctNontriv  int      // distinct outcomes among non-trivial executions
 	Exhaustive       bool
 	CapHit           string
 	Tags             map[string]int64
